@@ -22,6 +22,10 @@ pub struct SupplyTrace {
     pub labels: Vec<String>,
     /// files present in the verifier's working directory before verification (name, content)
     pub work_files: Vec<(String, String)>,
+    /// indices into `caller` whose key object is obtained by deserializing the key's JSON with the
+    /// label key's id written into its "keyid" member
+    #[serde(default)]
+    pub caller_json_alias: Vec<usize>,
 }
 
 pub struct SupplyOutcome {
@@ -51,7 +55,19 @@ pub fn run_supply(t: &SupplyTrace, scratch: &Scratch) -> SupplyOutcome {
     let caller: Vec<(String, in_toto::crypto::PublicKey)> = t
         .caller
         .iter()
-        .map(|(l, m)| (keys::key(t.keys[*l]).id.clone(), keys::key(t.keys[*m]).public.clone()))
+        .enumerate()
+        .map(|(i, (l, m))| {
+            let label = keys::key(t.keys[*l]).id.clone();
+            let mut public = keys::key(t.keys[*m]).public.clone();
+            if t.caller_json_alias.contains(&i) {
+                let mut j = keys::key(t.keys[*m]).public_json();
+                j["keyid"] = serde_json::Value::String(label.clone());
+                if let Ok(k) = serde_json::from_value::<in_toto::crypto::PublicKey>(j) {
+                    public = k;
+                }
+            }
+            (label, public)
+        })
         .collect();
     let mut verdicts = vec![];
     let mut events = vec![];
